@@ -240,6 +240,23 @@ func (w *world) newActor(collection string, realtime bool) *actor {
 	return a
 }
 
+// replaceActor puts a fresh client (new client id, nothing opened) in the place of one whose collection was reset.
+func (w *world) replaceActor(old *actor) *actor {
+	a := &actor{idx: old.idx, collection: old.collection, realtime: old.realtime}
+	a.name = old.name + "r"
+	a.ep = &endpoint{t: w.tr, name: a.name}
+	a.mq = w.br.newClient(a.name)
+	st := model.SyncType_MANUALLY
+	if a.realtime {
+		st = model.SyncType_REALTIME
+	}
+	w.cur = a
+	a.client = orda.NewClient(&orda.ClientConfig{ServerAddr: "sim", NotificationAddr: "sim", CollectionName: a.collection, SyncType: st}, a.name)
+	w.cur = nil
+	w.actors[old.idx] = a
+	return a
+}
+
 func sortedStrings(m map[string]bool) []string {
 	var out []string
 	for k := range m {
